@@ -72,7 +72,7 @@ def run(tier, replay):
                 if x["a"] == "shell":
                     shells[x["c"]] = shells.get(x["c"], 0) + 1
             noshell = any(x["a"] == "close" and shells.get(x["c"], 0) == 0 for x in c["hist"])
-            return noshell or any(v > 1 for v in shells.values()) or "authfail" in acts
+            return noshell or any(v > 1 for v in shells.values()) or "authfail" in acts or "otherchannel" in acts
         cases.sort(key=lambda c: not interesting(c))
         cases = cases[:(45 if tier == "quick" else 400)]
         # a burst: Max+2 TCP connections before any handshake
